@@ -34,6 +34,22 @@ def gen(rng, tier):
         sched = [(0, 1, [])] if rng.chance(1, 3) else []
         lines.append(programs.run_line(cid, st, mem, bps=bps, nruns=2, sched=sched))
         meta[cid] = ("wrap", "bps=%s" % bps)
+    # a CPU parked on HALT is run again with a request raised in between (accepted by the first Step of the next Run,
+    # or refused): the halted indication of the previous Run must not end the new one early
+    for k in range(16 if tier == "quick" else 600):
+        im = rng.choice([1, 2])
+        st = programs.start_state(rng, iff=0, im=im)
+        first = rng.choice([0xFB, 0xF3])      # EI or DI
+        mem = {0x100: first, 0x101: 0x76, 0x102: 0x3C, 0x103: 0x76, 0x104: 0x3C, 0x105: 0x76}
+        programs.handlers(mem, rng)
+        mem.update({0x38: 0x3C, 0x39: 0xFB, 0x3A: 0xED, 0x3B: 0x4D, 0x66: 0x3C, 0x67: 0xED, 0x68: 0x45})   # INC A ; EI ; RETI  /  INC A ; RETN
+        kind = rng.choice([0, 1, 1])
+        sched = [(1, kind, [] if kind == 0 else [0x10])]
+        if rng.chance(1, 2):
+            sched.append((2, rng.choice([0, 1]), [0x10]))
+        cid = "h%d" % k
+        lines.append(programs.run_line(cid, st, mem, bps=rng.choice([None, [0x38], [0x66]]), nruns=3, sched=sched))
+        meta[cid] = ("halted-then-request", "first=%02X kind=%d im=%d" % (first, kind, im))
     return lines, meta
 
 def compare(lines, go_bin, drv, model=0):
